@@ -64,7 +64,8 @@ ASSUMPTIONS = [
 REQUIRED = ["n_dep_frame_initiator", "n_dep_frame_target", "n_llcp_decode", "n_tt3_emulation", "n_llc_activate",
             "n_dep_initiator", "n_dep_target", "n_llc_run", "n_llc_run_threaded", "n_snep_server", "n_handover_server",
             "n_snep_client", "n_connect_card", "n_connect_llcp", "llc_run_returned", "threads_started",
-            "agf_depth_accepted", "outcome_tt3_emulation_misframed_ignored"]
+            "agf_depth_accepted", "outcome_tt3_emulation_misframed_ignored",
+            "tt3_refused_element_at_position_8_or_later"]
 
 NSHARDS = 16
 
@@ -730,6 +731,33 @@ class T3Emu(object):
                             self.check(t3_cmd(code, body[:240]))
                             self.check(t3_cmd(code, (body + bytes(16))[:240]))
                             R.count("tt3_count_games", 2)
+        # well formed multi block commands whose j-th block list element is the first one the emulation refuses (block
+        # beyond the service's memory, service index not in the service list, write to the read-only service), for every
+        # list length and every j: the status flag names the element position
+        svc = b"\x09\x00" + b"\x0b\x00"
+        for code, nmax in ((0x06, 15), (0x08, 13)):
+            for n in range(1, nmax + 1):
+                for bad in range(n + 1):                     # bad == n: no element refused
+                    for kind in ("beyond", "svc-index", "read-only" if code == 0x08 else "beyond-3byte"):
+                        elems = b""
+                        for j in range(n):
+                            if j != bad:
+                                elems += bytes([0x80, (j % 14) + 1])
+                            elif kind == "beyond":
+                                elems += bytes([0x80, 200])
+                            elif kind == "beyond-3byte":
+                                elems += bytes([0x00, 0x00, 0x02])
+                            elif kind == "svc-index":
+                                elems += bytes([0x85, 1])
+                            else:
+                                elems += bytes([0x81, 1])
+                        body = b"\x02" + svc + bytes([n]) + elems + (bytes(16 * n) if code == 0x08 else b"")
+                        cmd = t3_cmd(code, body)
+                        if len(cmd) <= 255:
+                            self.check(cmd)
+                            R.count("tt3_refused_element_commands")
+                            if bad >= 8:
+                                R.count("tt3_refused_element_at_position_8_or_later")
         self.st.flush()
         R.bulk(self.st.ex, self.st.ex)
 
